@@ -182,7 +182,7 @@ inductive Cb
 def cbResult : Cb → Except Panic Boxed
   | .notFunc => .error .notFunc
   | .nilFunc => .error .nilFunc
-  | .takesArgs => .error .fewArgs
+  | .takesArgs => .error .fewArgs      -- non-variadic parameters (a variadic-only callback is accepted by Call(nil): `.ret`)
   | .zeroRets => .error .retCount
   | .twoRets => .error .retCount
   | .panics => .error .cbPanic
